@@ -9,6 +9,19 @@ COMMON_ASSUMPTIONS = [
 ]
 
 PROPS = {
+    "C04": {
+        "level": "exploration",
+        "exhaustive": True,
+        "rule": "exhaustive grid of the algorithm-agreement model: structure in {Sign1, untagged Sign1, Signature, Countersignature, hash envelope} x message origin in {constructed, decoded from reference-built wire, caller-supplied RawProtected with mirrored map, caller-supplied RawProtected only} x {sign, verify} x signer/verifier algorithm in {-7, -8, -37, private-use -65537, 7} (spy keys) x external data in {nil, empty, non-empty} x header alg in {absent, 11 integer values incl. every built-in, 0, private-use, MinInt64, tstr, empty tstr, bstr, float, bool, null, array} x (constructed only) 10 Go spellings of label 1 x every fitting Go spelling of the value; plus rapid-random cells where the alg entry sits among up to 30 other generated protected parameters. Oracle = model of the statement: alg present and different => error, key never invoked, ErrAlgorithmMismatch for signed-integer values; alg absent without external data => Verify fails with the key not invoked, Sign fails or the recorded ToBeSigned AND the emitted message carry 1: signer alg (same bytes); success => exactly one key invocation; decoded messages hold alg typed as Algorithm equal to the integer in the protected bytes. Non-trivial = cell with alg present-and-different or absent-without-external-data; distinct by cell id.",
+        "parts": [
+            {"test": "TestC04_Grid", "quick": 1, "thorough": 1, "shards_quick": 1, "shards_thorough": 1},
+            {"test": "TestC04_Random", "quick": 6000, "thorough": 100000, "shards_quick": 4, "shards_thorough": 16},
+        ],
+        "required_classes": ["refused/mismatch", "refused/alg-absent", "alg-injected", "proceeds/equal", "proceeds/absent-with-external",
+                             "struct/Sign1", "struct/Untagged", "struct/Signature", "struct/Countersignature", "struct/HashEnvelope",
+                             "mode/constructed", "mode/decoded", "mode/raw+map", "mode/raw-only"],
+        "assumptions": COMMON_ASSUMPTIONS + ["the grid is exhaustive only over its stated finite abstraction of alg values and spellings", "the error class ErrAlgorithmMismatch is asserted only for alg values spelt with a signed Go integer type or cose.Algorithm"],
+    },
     "C03": {
         "level": "exploration",
         "rule": "rapid draws a conforming message of any kind (Sign1 tagged/untagged, Sign with 1..4 signers, nested countersignatures; all 7 algorithms; peer encoder choices) signed by the reference implementation, then one attack class: 1-2 structure-aware tree/byte faults biased to stay decodable (content bit flips, truncation, head-width and key-order changes, parameters added/moved between buckets, declared counts, ...), a signature rewrite (DER, (r, n-s), zero-extended / minimal / swapped halves, truncate, extend, bit flip), changed external data (nil<->empty, replaced, dropped, flipped), another key / another algorithm / same key under another algorithm / permuted verifiers, re-tagging (18<->none, COSE_Signature presented as Sign1), transplant of one envelope field from a second message signed with the same keys, or no change. Oracle: whenever the library decodes the bytes, for every message signature and every countersignature still present, library verdict (nil / error) == reference verdict computed from the received bytes (non-empty signature, alg rule on the received protected map, crypto/* verification of the reference Sig_structure / Countersign_structure); both directions are failures. Non-trivial = something was changed (bytes, external data or key) and the message stayed decodable so that verdicts were compared; distinct by hash of (wire, external, class, keys). Thorough adds rapid.MakeFuzz under the native fuzzer.",
